@@ -59,8 +59,8 @@ ASSUMPTIONS = [
     "matrices and all tags must be bitwise unchanged",
 ]
 BOUNDS = {
-    "quick": "35 grid letters (<=72 cells); offsets {0,+-1/4}^dim on <=2 interior nodes (and on <=2 interior node columns of 3-d Cartesian/tensor letters); 3 embeddings (1-d/2-d) / 3 affine maps (3-d); scale axis s in {1e-4,1e-2,1,1e3} on every unperturbed and singly perturbed grid; 3 graded tensor grids with cell-size ratios 1e3..1e4",
-    "thorough": "39 grid letters (<=72 cells); offsets on <=3 interior nodes in 1-d/2-d, <=2 in 3-d (and <=2 node columns); 5 embeddings / 3 affine maps; same scale axis",
+    "quick": "37 grid letters (<=72 cells); offsets {0,+-1/4}^dim on <=2 interior nodes (and on <=2 interior node columns of 3-d Cartesian/tensor letters); 3 embeddings (1-d/2-d) / 3 affine maps (3-d); scale axis s in {1e-4,1e-2,1,1e3} on every unperturbed and singly perturbed grid; 3 graded tensor grids with cell-size ratios 1e3..1e4",
+    "thorough": "41 grid letters (<=72 cells); offsets on <=3 interior nodes in 1-d/2-d, <=2 in 3-d (and <=2 node columns); 5 embeddings / 3 affine maps; same scale axis",
 }
 MIN_CLASSES = 6
 CHUNK = 16
